@@ -162,8 +162,9 @@ def main(tier):
     D = 10 if tier == 'quick' else 32
     tasks = []
     EXTREME_L = (0, 1, 2, 6, D)
+    # every digit length up to D, plus 19/20/21 digits (around u64::MAX / i64::MAX, where a native-integer fast path would sit)
     for fn in FNS:
-        for L in range(0, D + 1):
+        for L in list(range(0, D + 1)) + [l for l in (19, 20, 21) if l > D]:
             if fn == 'to_plain_string':
                 tasks.append({'fn': fn, 'L': L, 'slo': -40, 'shi': 60, 'cfg': cfg})
             else:
